@@ -2,7 +2,7 @@
    Only statements here; the model is Model/Keys.v, the proofs are in Proofs/Keys*.v.
    A key is the list of its dot-separated components. *)
 From Coq Require Import ZArith List Bool String.
-From PyxelV Require Import Model.Keys Model.KeysWorld Proofs.Keys Proofs.KeysLit Proofs.KeysSeq Proofs.KeysWorld.
+From PyxelV Require Import Model.Keys Model.KeysWorld Proofs.Keys Proofs.KeysLit Proofs.KeysSeq Proofs.KeysWorld Proofs.KeysRun.
 From PyxelGen Require Import Gen_C08.
 Import ListNotations.
 Open Scope string_scope.
@@ -10,10 +10,11 @@ Open Scope list_scope.
 
 (* ---- concrete trees used as witnesses / non-vacuity examples ---- *)
 Definition ex_args : tree :=
-  Node NArgs (MCons "values" KClass (Leaf (VOpaque "method"))
+  Node NArgs (MCons "items" KClass (Leaf (VOpaque "method"))
+             (MCons "values" KClass (Leaf (VOpaque "method"))
              (MCons "level" KItem (Leaf (VInt 1))
              (MCons "values" KItem (Leaf (VInt 3))
-             (MCons "d" KItem (Node NDict (MCons "keys" KClass (Leaf (VOpaque "method")) (MCons "k" KItem (Leaf (VInt 1)) MNil))) MNil)))).
+             (MCons "d" KItem (Node NDict (MCons "keys" KClass (Leaf (VOpaque "method")) (MCons "k" KItem (Leaf (VInt 1)) MNil))) MNil))))).
 Definition ex_model (en : bool) : tree :=
   Node (NObj true) (MCons "name" (KProp false GAny) (Leaf (VStr "illumination"))
                    (MCons "arguments" (KProp false GAny) ex_args
@@ -152,6 +153,64 @@ Example C08_unresolved_nonvacuous :
   has (ex_proc true) k_rwo = Ok false /\ has (ex_proc true) k_enabld = Ok false.
 Proof. repeat split; vm_compute; reflexivity. Qed.
 
+(* ===================================================================================== existing non-settings *)
+
+(* A name can exist under a key — has() says True — without being a setting: a method or constant of the object's
+   class (`...arguments.items`, `detector.geometry.to_dict`, `pipeline.MODEL_GROUPS`), a read-only property, an object.
+   Whatever is not an assignable setting is refused, for every tree, key and value: nothing is created, no method is
+   shadowed by an instance attribute. *)
+Theorem C08_non_setting_refused : forall t k v, targets t k = false -> exists e, set t k v = Raise e.
+Proof. exact non_setting_refused. Qed.
+Print Assumptions C08_non_setting_refused.
+
+(* in particular a name that is only a class-level attribute of the object the key walks to is no target,
+   and Arguments refuses every name that is not a declared argument, the methods of the Mapping class included *)
+Theorem C08_class_level_name_is_no_setting : forall k ms att,
+  find is_prop att ms = None -> find is_inst att ms = None -> find is_item att ms = None ->
+  tail_is_target (Node k ms) att = false.
+Proof. exact class_only_not_target. Qed.
+Print Assumptions C08_class_level_name_is_no_setting.
+
+Theorem C08_undeclared_argument_refused : forall ms att v,
+  find is_item att ms = None -> set (Node NArgs ms) [att] v = Raise AttributeError.
+Proof. exact args_undeclared_refused. Qed.
+Print Assumptions C08_undeclared_argument_refused.
+
+(* tie: the only names Arguments.__setattr__ hands to the unmodified object.__setattr__ (src_args_passthrough,
+   regenerated from the source on every run) are private, i.e. outside the public key space the model describes *)
+Theorem C08_arguments_passthrough_private : forall n, In n src_args_passthrough -> private_name n = true.
+Proof. apply all_private. vm_compute. reflexivity. Qed.
+Print Assumptions C08_arguments_passthrough_private.
+
+Example C08_non_setting_nonvacuous :
+  let k_items := ["pipeline"; "photon_collection"; "illumination"; "arguments"; "items"] in
+  has (ex_proc true) k_items = Ok true /\ targets (ex_proc true) k_items = false /\
+  set (ex_proc true) k_items (VInt 5) = Raise AttributeError /\
+  has (ex_proc true) ["detector"; "geometry"; "to_dict"] = Ok true /\
+  set (ex_proc true) ["detector"; "geometry"; "to_dict"] (VInt 5) = Raise AttributeError /\
+  has (ex_proc true) ["detector"; "geometry"; "shape"] = Ok true /\
+  set (ex_proc true) ["detector"; "geometry"; "shape"] (VInt 5) = Raise AttributeError /\
+  (* a declared argument called like a method of Mapping IS a setting *)
+  targets (ex_proc true) k_values = true /\ private_name "_arguments" = true /\ private_name "values" = false.
+Proof. repeat split; vm_compute; reflexivity. Qed.
+
+(* has() is sound: whatever it confirms can be read, i.e. the whole path of the key exists — for every tree and key,
+   private and dunder names included (repaired C08-has-none: when a component cannot be resolved the walk ends on None,
+   and has() used to ask hasattr(None, <last component>), which is True for `__class__`, `__eq__`, `__doc__` ...) *)
+Theorem C08_has_confirms_only_readable_paths : forall t k, has t k = Ok true -> exists v, getv t k = Ok v.
+Proof. exact has_confirmed_is_readable. Qed.
+Print Assumptions C08_has_confirms_only_readable_paths.
+
+Example C08_has_sound_nonvacuous :
+  let geo := Node (NObj true) (MCons "__class__" KClass (Leaf (VOpaque "method")) (MCons "row" (KProp true GAny) (Leaf (VInt 3)) MNil)) in
+  let p := Node (NObj true) (MCons "__class__" KClass (Leaf (VOpaque "method"))
+                            (MCons "detector" KInst (Node (NObj true) (MCons "geometry" (KProp false GAny) geo MNil)) MNil)) in
+  has p ["detector"; "geometry"; "__class__"] = Ok true /\ getv p ["detector"; "geometry"; "__class__"] = Ok (VOpaque "method") /\
+  has p ["detector"; "geomtry"; "__class__"] = Ok false /\ has p ["detecto"; "__class__"] = Ok false /\
+  getv p ["detector"; "geomtry"; "__class__"] = Raise AttributeError /\
+  set p ["detector"; "geomtry"; "__class__"] (VInt 1) = Raise AttributeError.
+Proof. repeat split; vm_compute; reflexivity. Qed.
+
 (* ===================================================================================== setter guards *)
 
 (* The range guards of the property setters of Geometry / Characteristics / Environment / APDCharacteristics are
@@ -218,6 +277,58 @@ Example C08_validate_nonvacuous :
   validate_steps (ex_proc false) ["pipeline.photon_collection.illumination.enabled"] = Some ValueError /\
   model_flag_key (split_dots "pipeline.photon_collection.illumination.arguments.level") =
     ["pipeline"; "photon_collection"; "illumination"; "enabled"].
+Proof. repeat split; vm_compute; reflexivity. Qed.
+
+(* The `enabled` flag is a setting like any other: a configuration, a constructor, Processor.set or an override text
+   ('1' -> the int 1) can leave any value there.  Two places read it: Observation.validate_steps (is the model a swept
+   key addresses enabled?) and ModelGroup.__iter__ (which models run).  Their tests are regenerated from the source on
+   every run (src_validate_flag_test, src_exec_flag_test).  They agree on EVERY value the flag can hold ... *)
+Theorem C08_flag_readers_agree :
+  forall v, flag_holds src_validate_flag_test v = flag_holds src_exec_flag_test v.
+Proof. apply flag_tests_agree. vm_compute. reflexivity. Qed.
+Print Assumptions C08_flag_readers_agree.
+
+(* ... so every model addressed by a key of a sweep that validation accepts is executed when the pipelines run: an
+   accepted sweep over an argument is never a silent no-op because its model is skipped.  (First premise of the lemma:
+   the test validate_steps applies in the source is the truthiness test of the model's validate_steps.) *)
+Theorem C08_accepted_sweep_model_executes :
+  forall t keys key,
+    validate_steps t keys = None -> In key keys -> is_pipeline_key (split_dots key) = true ->
+    executes src_exec_flag_test t (split_dots key) = true.
+Proof. apply (validated_model_executes src_validate_flag_test src_exec_flag_test); vm_compute; reflexivity. Qed.
+Print Assumptions C08_accepted_sweep_model_executes.
+
+(* contrapositive: a sweep over anything of a model that does not run is refused, wherever the key stands *)
+Theorem C08_not_executed_model_is_refused :
+  forall t keys key,
+    In key keys -> is_pipeline_key (split_dots key) = true -> executes FTruthy t (split_dots key) = false ->
+    exists e, validate_steps t keys = Some e.
+Proof. exact not_executed_is_refused. Qed.
+Print Assumptions C08_not_executed_model_is_refused.
+
+(* what is at stake: the three tests are pairwise different, and with any executing reader other than validation's
+   some accepted, specification-admitted sweep addresses a model that never runs *)
+Theorem C08_flag_tests_distinct : forall a b, flagtest_eqb a b = false -> exists v, flag_holds a v <> flag_holds b v.
+Proof. exact flag_tests_differ. Qed.
+Print Assumptions C08_flag_tests_distinct.
+
+Theorem C08_disagreeing_reader_is_silent_noop :
+  forall fte, flagtest_eqb FTruthy fte = false ->
+    exists t key, validate_steps t [key] = None /\ spec_step_ok t key = true /\
+                  is_pipeline_key (split_dots key) = true /\ executes fte t (split_dots key) = false.
+Proof. exact disagreeing_reader_noop. Qed.
+Print Assumptions C08_disagreeing_reader_is_silent_noop.
+
+Example C08_flag_nonvacuous :
+  let key := "pipeline.photon_collection.illumination.arguments.level" in
+  (* enabled: 1 (int) — validation accepts, the truthiness reader runs the model, an `is True` reader would skip it *)
+  validate_steps (flag_proc (VInt 1)) [key] = None /\ executes FTruthy (flag_proc (VInt 1)) (split_dots key) = true /\
+  executes FIsTrue (flag_proc (VInt 1)) (split_dots key) = false /\
+  executes FEqTrue (flag_proc (VDec 5 (-1))) (split_dots key) = false /\
+  validate_steps (flag_proc (VStr "yes")) [key] = None /\
+  (* enabled: 0 / '' / None — refused, and not executed *)
+  validate_steps (flag_proc (VInt 0)) [key] = Some ValueError /\ executes FTruthy (flag_proc (VInt 0)) (split_dots key) = false /\
+  validate_steps (flag_proc (VStr "")) [key] = Some ValueError /\ validate_steps (flag_proc VNone) [key] = Some ValueError.
 Proof. repeat split; vm_compute; reflexivity. Qed.
 
 (* STILL OPEN (C08-validate-nonsetting): validate_steps relies on has(), which confirms anything that exists, so a
